@@ -88,7 +88,7 @@ func ruleMarkerFirstRdb(w *core.World, r *core.Report) {
 	bad := ""
 	var badPos token.Pos
 	n := 0
-	core.EnumPathsN(f.Blocks[0], 0, 100000, 2, func(p *core.Path) {
+	core.EnumPathsN(f.Blocks[0], 0, 100000, core.Unroll, func(p *core.Path) {
 		var kinds []string
 		var sites []core.Site
 		var bat ssa.Value
